@@ -90,8 +90,9 @@ type hold struct {
 }
 
 type traceEv struct {
-	K string `json:"k"` // req rep seed
-	H string `json:"h"` // hex
+	K string `json:"k"`           // req rep seed quiet down
+	H string `json:"h"`           // hex (message, reply, seeded key)
+	D string `json:"d,omitempty"` // seed: data hex
 }
 
 type worker struct {
@@ -200,7 +201,7 @@ func (w *worker) send(data []byte) {
 	w.mu.Lock()
 	w.replies = append(w.replies, cp)
 	if w.tracing {
-		w.trace = append(w.trace, traceEv{"rep", hx(cp)})
+		w.trace = append(w.trace, traceEv{K: "rep", H: hx(cp)})
 	}
 	w.cond.Broadcast()
 	w.mu.Unlock()
@@ -237,7 +238,7 @@ func (w *worker) waitFor(pred func() bool, d time.Duration) bool {
 	return true
 }
 
-const wedgeTimeout = 25 * time.Second
+const wedgeTimeout = 15 * time.Second
 
 func (w *worker) wedge(what string) string {
 	fmt.Fprintf(os.Stderr, "WEDGE: %s (begins=%d ends=%d expected=%d)\n", what, w.begins, w.ends, w.expected)
@@ -344,7 +345,11 @@ func (w *worker) privPut(key string, r record.Record) string {
 	n0 := w.nreplies()
 	if w.tracing {
 		w.mu.Lock()
-		w.trace = append(w.trace, traceEv{"seed", hx([]byte(key))})
+		d := ""
+		if wr, ok := r.(*record.Wrapper); ok {
+			d = hx(wr.Data)
+		}
+		w.trace = append(w.trace, traceEv{K: "seed", H: hx([]byte(key)), D: d})
 		w.mu.Unlock()
 	}
 	err := w.priv.Put(r)
@@ -399,7 +404,7 @@ func (w *worker) handleMsg(msg []byte) {
 		w.expected++
 	}
 	if w.tracing {
-		w.trace = append(w.trace, traceEv{"req", hx(msg)})
+		w.trace = append(w.trace, traceEv{K: "req", H: hx(msg)})
 	}
 	w.mu.Unlock()
 	switch c.Kind {
@@ -467,6 +472,7 @@ type concScenario struct {
 	Seed   int64      `json:"seed"`
 	YieldP int        `json:"yieldp"`
 	Steps  []concStep `json:"steps"`
+	Down   bool       `json:"down,omitempty"` // end with the connection teardown while requests are in flight
 }
 
 type concResult struct {
@@ -548,32 +554,40 @@ func (w *worker) conc(arg string) string {
 			}
 		}
 	}
-	releaseAll()
-	w.mu.Lock()
-	for _, h := range w.holds {
-		h.done = true
-	}
-	w.mu.Unlock()
-	if !w.waitFor(w.quiescent, wedgeTimeout) {
-		return w.wedge("no quiescence at scenario end")
-	}
-	// epilogue: cancel every subscription that is still live; each must answer with done
-	for round := 0; round < 4; round++ {
-		live := w.liveSubOps()
-		if len(live) == 0 {
-			break
+	if sc.Down {
+		// teardown with handlers in flight (held ones are released by teardown after the signal)
+		w.teardown()
+		w.mu.Lock()
+		w.trace = append(w.trace, traceEv{K: "down", H: "-"})
+		w.mu.Unlock()
+	} else {
+		releaseAll()
+		w.mu.Lock()
+		for _, h := range w.holds {
+			h.done = true
 		}
-		for _, op := range live {
-			res.Live = append(res.Live, hx([]byte(op)))
-			w.handleMsg([]byte(op + "|cancel"))
-			if !w.waitFor(w.quiescent, wedgeTimeout) {
-				return w.wedge("no quiescence after epilogue cancel")
+		w.mu.Unlock()
+		if !w.waitFor(w.quiescent, wedgeTimeout) {
+			return w.wedge("no quiescence at scenario end")
+		}
+		// epilogue: cancel every subscription that is still live; each must answer with done
+		for round := 0; round < 4; round++ {
+			live := w.liveSubOps()
+			if len(live) == 0 {
+				break
+			}
+			for _, op := range live {
+				res.Live = append(res.Live, hx([]byte(op)))
+				w.handleMsg([]byte(op + "|cancel"))
+				if !w.waitFor(w.quiescent, wedgeTimeout) {
+					return w.wedge("no quiescence after epilogue cancel")
+				}
 			}
 		}
+		w.mu.Lock()
+		w.trace = append(w.trace, traceEv{K: "quiet", H: "-"})
+		w.mu.Unlock()
 	}
-	w.mu.Lock()
-	w.trace = append(w.trace, traceEv{"quiet", "-"})
-	w.mu.Unlock()
 	w.teardown()
 	w.mu.Lock()
 	res.Trace = append([]traceEv(nil), w.trace...)
